@@ -40,7 +40,19 @@ def shard(args):
     if args[0] == "after-activity":
         return after_activity_shard(args)
     if args[0] in INTERPRETERS:
-        return par.in_interpreter(INTERPRETERS[args[0]], "mc.props.c01", "optimised_child", (args[1], args[0]))
+        try:
+            return par.in_interpreter(INTERPRETERS[args[0]], "mc.props.c01", "optimised_child", (args[1], args[0]),
+                                      env=INTERPRETER_ENV.get(args[0]))
+        except report.HarnessError as e:
+            if "/schwifty/" not in str(e):
+                raise
+            # the library itself fails in this interpreter (e.g. cannot even be imported)
+            part = par.Part()
+            part["evals"] += 1
+            part.violation(f"library-unusable [{args[0]}]", {"kind": "iban_text", "text": "DE89370400440532013000",
+                           "how": f"import and first call under {args[0]}", "interpreter": args[0]},
+                           "accept", str(e)[-400:])
+            return part.done()
     country, tier = args
     part = par.Part()
     W = alphabet.wide(thorough=(tier == "thorough"))
@@ -125,7 +137,11 @@ def after_activity_shard(args):
     return part.done()
 
 
-INTERPRETERS = {"python -O": ["-O"], "python -W error": ["-W", "error"]}
+INTERPRETERS = {"python -O": ["-O"], "python -W error": ["-W", "error"],
+                # a process whose locale is not UTF-8 (files opened without an explicit encoding are read
+                # as ASCII there)
+                "python, C locale": ["-X", "utf8=0"]}
+INTERPRETER_ENV = {"python, C locale": {"LC_ALL": "C", "LANG": "C", "PYTHONUTF8": "0", "PYTHONCOERCECLOCALE": "0"}}
 
 
 def spelled(base):
@@ -159,7 +175,13 @@ def optimised_child(arg):
 def replay(case: dict) -> dict:
     if case.get("interpreter"):
         label = "python -O" if case["interpreter"] == "-O" else case["interpreter"]
-        part = par.in_interpreter(INTERPRETERS[label], "mc.props.c01", "optimised_child", ("quick", label))
+        try:
+            part = par.in_interpreter(INTERPRETERS[label], "mc.props.c01", "optimised_child", ("quick", label),
+                                      env=INTERPRETER_ENV.get(label))
+        except report.HarnessError as e:
+            if "/schwifty/" not in str(e):
+                raise
+            return {"ok": False, "observed": str(e)[-400:], "interpreter": label}
         hit = [v for v in part["violations"] if v["case"]["text"] == case["text"]]
         return {"ok": not hit, "observed": hit[0]["observed"] if hit else None, "interpreter": label}
     ok, sig, exp, obs = judge(case["text"])
